@@ -176,6 +176,8 @@ fn symbolmap_rollback_fresh_names() {
     rollback_check(1, 1, Some(2));
     rollback_check(2, 2, None);
     rollback_check(3, 1, Some(2));
+    // a recycled slot is in use by a live binding (recently_freed is not empty)
+    rollback_check(6, 2, None);
 }
 
 #[kani::proof]
@@ -434,3 +436,18 @@ recycle_harness!(recycle_all_shadowed, [None, None, None], [true, true, true]);
 recycle_harness!(recycle_shadowed_refers_live, [Some(&[(OpCode::PUSH, 1)]), None, Some(&[(OpCode::CALLGLOBALTAILNOARITY, 0)])], [true, false, false]);
 // (known finding) k (slot 0, live) calls old g (slot 1, shadowed), old g calls old f (slot 2, shadowed)
 recycle_harness!(recycle_transitive_references, [Some(&[(OpCode::CALLGLOBAL, 1)]), Some(&[(OpCode::CALLGLOBAL, 2)]), None], [false, true, true]);
+
+/// the walk over live values starts from a clean mark state on BOTH heaps (otherwise values
+/// allocated since the last collection count as already visited and what they reference is
+/// skipped) and the free counts are recomputed afterwards
+#[kani::proof]
+#[kani::unwind(3)]
+fn recycle_resets_heap_marks() {
+    let mut roots: Vec<SteelVal> = Vec::new();
+    let mut sm = SymbolMap::new();
+    let mut heap = Heap::default();
+    let mut r = GlobalSlotRecycler::default();
+    r.recycle(&mut roots, &mut sm, &mut heap);
+    assert!(heap.memory_free_list.reset_marks == 1 && heap.vector_free_list.reset_marks == 1);
+    assert!(heap.memory_free_list.recounted_after_reset == 1 && heap.vector_free_list.recounted_after_reset == 1);
+}
